@@ -10,6 +10,9 @@
                               is a candidate iff all its facets are present; its value is the max of the facets' values; it is
                               dropped iff the blocker says so; extra_levels transcribes the max_dim handling of both routines
      sparse_complex           constructor + create_complex
+     sib_blk / sib_plain      the same expansion following the traversal of the simplex tree (siblings_expansion_with_blockers:
+                              reverse sibling loops, borders looked up in the tree built so far; siblings_expansion /
+                              create_expansion / intersection: later sibling + edge to it); sparse_complex_trie uses them
    SPECIFICATION MODEL: in_rips (membership in the Rips complex at a scale), rips_complex, valid filtration (closed under
    facets, monotone), persistence bars through Reduce/ReduceExec.certified_lows, matching within a multiplicative bound.
    No proofs in this file. *)
@@ -158,6 +161,74 @@ Definition sparse_complex (N : nat) (pi : list nat) (mini maxi : option Q) (dim_
   let blockers := qlt eps 1 in
   let blk := if blockers then blocked vs else (fun _ _ => false) in
   V ++ E ++ expand blk (map fst vs) (extra_levels blockers N dim_max) E.
+
+(* ------------------------------------------------------------------ the same, following the traversal of Simplex_tree.h
+   Simplices are increasing lists; the children of the node P are the nodes P ++ [x].  K is the set of simplices of
+   dimension >= 1 inserted so far (the tree), threaded through the traversal as in the C++. *)
+Fixpoint ins_nat (x : nat) (l : list nat) : list nat :=
+  match l with [] => [x] | y :: r => if (x <=? y)%nat then x :: l else y :: ins_nat x r end.
+Definition sort_nat (l : list nat) : list nat := fold_right ins_nat [] l.
+Definition isnil {A} (l : list A) : bool := match l with [] => true | _ => false end.
+
+(* siblings_expansion_with_blockers(siblings = children S of P, max_dim, k = fuel, block).
+   blk_new: for 'simplex' = P ++ [s] (value fs), the members 'next' > s of S such that every border of 'simplex' has the child
+   'next' in the tree K, with value = max over them and 'simplex', minus the blocked ones. *)
+Definition blk_new (blk : list nat -> Q -> bool) (K : cplx) (P S : list nat) (s : nat) (fs : Q) : list (nat * Q) :=
+  filter (fun p => negb (blk (P ++ [s; fst p]) (snd p)))
+    (flat_map (fun nx => match max_facets K (map (fun b => b ++ [nx]) (facets (P ++ [s]))) fs with
+                         | Some g => [(nx, g)] | None => [] end)
+              (filter (fun x => (s <? x)%nat) S)).
+Definition sib_blk_step (blk : list nat -> Q -> bool) (rec : list nat -> list nat -> cplx -> cplx)
+           (P S : list nat) (K : cplx) (s : nat) : cplx :=
+  match lookup K (P ++ [s]) with
+  | None => K
+  | Some fs =>
+    let keep := blk_new blk K P S s fs in
+    let K1 := K ++ map (fun p => (P ++ [s; fst p], snd p)) keep in
+    if isnil keep then K1 else rec (P ++ [s]) (map fst keep) K1
+  end.
+Fixpoint sib_blk (blk : list nat -> Q -> bool) (fuel : nat) (P : list nat) (S : list nat) (K : cplx) : cplx :=
+  match fuel with
+  | O => K
+  | Datatypes.S f => fold_left (sib_blk_step blk (sib_blk blk f) P S) (rev S) K
+  end.
+(* expansion_with_blockers: roots in reverse order, each with its children in the graph *)
+Definition expand_trie_blk (blk : list nat -> Q -> bool) (levels : nat) (verts : list nat) (E : cplx) : cplx :=
+  let vs := sort_nat verts in
+  fold_left (fun K v =>
+               let S := filter (fun w => match lookup E [v; w] with Some _ => true | None => false end) vs in
+               if isnil S then K else sib_blk blk levels [v] S K) (rev vs) E.
+
+(* siblings_expansion(siblings = children S of P with their values, k = fuel) / create_expansion / intersection:
+   P ++ [s; next] is created iff next is a later sibling and [s; next] is an edge; value = max of the three *)
+Fixpoint tails {A} (l : list A) : list (A * list A) :=
+  match l with [] => [] | x :: r => (x, r) :: tails r end.
+Definition plain_inter (E : cplx) (s : nat) (fs : Q) (rest : list (nat * Q)) : list (nat * Q) :=
+  flat_map (fun p => match lookup E [s; fst p] with
+                     | Some fe => [(fst p, qmax (qmax (snd p) fe) fs)] | None => [] end) rest.
+Fixpoint sib_plain (E : cplx) (fuel : nat) (P : list nat) (S : list (nat * Q)) : cplx :=
+  match fuel with
+  | O => []
+  | Datatypes.S f =>
+    flat_map (fun sr =>
+                let inter := plain_inter E (fst (fst sr)) (snd (fst sr)) (snd sr) in
+                map (fun p => (P ++ [fst (fst sr); fst p], snd p)) inter
+                ++ (if isnil inter then [] else sib_plain E f (P ++ [fst (fst sr)]) inter)) (tails S)
+  end.
+Definition expand_trie_plain (levels : nat) (verts : list nat) (E : cplx) : cplx :=
+  let vs := sort_nat verts in
+  E ++ flat_map (fun v =>
+         let S := flat_map (fun w => match lookup E [v; w] with Some g => [(w, g)] | None => [] end) vs in
+         sib_plain E levels [v] S) vs.
+
+Definition sparse_complex_trie (N : nat) (pi : list nat) (mini maxi : option Q) (dim_max : Z) : cplx :=
+  let vs := kept mini pi in
+  let V := map (fun p => ([fst p], 0)) vs in
+  let E := all_edges maxi vs in
+  let blockers := qlt eps 1 in
+  let levels := extra_levels blockers N dim_max in
+  V ++ (if blockers then expand_trie_blk (blocked vs) levels (map fst vs) E
+        else expand_trie_plain levels (map fst vs) E).
 
 (* the order handed over by the implementation is acceptable: a farthest-point prefix, nothing kept that the cut drops,
    and if points were dropped the next insertion radius really triggers the cut *)
